@@ -51,7 +51,7 @@ def check_C08(c):
         if c.rng.random() < 0.5:
             keep = c.rng.random() < 0.5
             jobs.append(('tr_lex', dict(lines=s.splitlines(keep) if False else _lines(s, keep), triple=False)))
-    traces = pmake(jobs)
+    traces = pmake(jobs, optimized_share=0.02)
     c.judge('J_Syntax', traces, 'lex', nontrivial=lambda t: len(t['toks']) >= 2)
     c.rule = ('every text up to length %d over the %d-character lexer alphabet (both token patterns) plus seeded samples of '
               'longer texts, random lines up to 200 characters, the strings of tests/ and docs/ and mutations of them, as one '
@@ -140,7 +140,7 @@ def check_C07(c):
         for _ in range(c.rng.randint(1, 2)):
             s = gen.mutate_text(c.rng, s)
         jobs.append(('tr_ptriples', dict(text=s)))
-    traces = pmake(jobs)
+    traces = pmake(jobs, optimized_share=0.02)
     c.judge('J_Syntax', traces, 'parse', nontrivial=lambda t: True)
     c.rule = ('every token-type sequence up to length %d (one token per line), every text up to length %d over the %d-character '
               'delimiter alphabet through parse and parse_triples, seeded samples of longer texts, damaged valid graphs and '
@@ -199,7 +199,7 @@ def check_C01(c):
     for s in texts:
         ind, cp = c.rng.choice(INDENTS), c.rng.random() < 0.5
         jobs.append(('tr_fixpoint', dict(text=s, indent=ind, compact=cp)))
-    traces = pmake(jobs)
+    traces = pmake(jobs, optimized_share=0.02)
     c.judge('J_Syntax', traces, 'format', nontrivial=lambda t: (t['kind'] == 'format' and len(t['tree']['br']) >= 2) or
             (t['kind'] == 'fixpoint' and t['out']['ok']))
     c.rule = ('trees enumerated by TLC (MC_Format export run) x 8 option pairs (2 sampled per tree in the quick tier), random grammar-valid trees (depth up to 30, strings with '
@@ -302,7 +302,7 @@ def check_C19(c):
             v = _variants([tuple(t) for t in ts]) if len(ts) <= 4 else []
             v = (v if ind else v[:3]) + (_mixed_variants(c, [tuple(t) for t in ts], 3) if len(ts) >= 2 else [])
             jobs.append(('tr_triples', dict(ts=ts, indent=ind, variants=v)))
-    traces = pmake(jobs)
+    traces = pmake(jobs, optimized_share=0.02)
     c.judge('J_Syntax', traces, 'triples', nontrivial=lambda t: len(t['ts']) >= 2 or any(x[2].startswith('"') for x in t['ts']))
     c.rule = ('triple lists of every decodable corpus graph and random lists (targets: symbols, numerals, quoted strings with '
               'blanks, commas, parentheses, carets, escapes) x both line styles x the 12 documented spacing variants; '
